@@ -42,7 +42,7 @@ def mk_bad(x):
 
 
 def wide_ops():
-    huge = st.sampled_from([0, -1, 1, 5, 50, -10 ** 6, 30000])
+    huge = st.sampled_from([0, -1, 1, 5, 50, -10 ** 6, 30000, 2 ** 70, 2 ** 64])
     wcount = st.sampled_from([-1, 0, 1, 2, 10 ** 6, -10 ** 6])
     fill = st.sampled_from(['', 'ab', ' ', '*', 'é', '\x1b', '\n'])
     sub = st.sampled_from(['', 'a', ' ', 'ab', '\n', '\t', 'aa', 'é', 'm', '['])
@@ -125,6 +125,12 @@ def make_call(m, recv, op):
         return (lambda: apply_op(recv, op, res)), ('inplace' if is_inplace(recv, op) else 'value'), extra
     if name == 'w_pad':
         meth = op['m']
+        if isinstance(op['w'], int) and 10 ** 6 < op['w'] < 2 ** 63:
+            # a width in this range would really be allocated (gigabytes); only widths up to 10^6 and widths that overflow
+            # the index type (OverflowError, like str) are in the budget - the shrinker must not wander in between
+            def thunk():
+                raise Rejected('width out of budget')
+            return thunk, 'scalar', extra
         ip = op['ip'] and mut
         e = str_exception(t, lambda s: getattr(s, meth)(op['w']) if meth == 'zfill' else getattr(s, meth)(op['w'], op['f']))
         if e:
@@ -187,6 +193,9 @@ def make_call(m, recv, op):
                 return (lambda: recv.to_str(':nope')), 'scalar', extra
             return (lambda: format(recv, '>5:' + BAD_SETTINGS[op['i']])), 'scalar', extra
         f = recv.format_matching if meth == 'fmtmatch' else recv.unformat_matching
+        if op['mix']:
+            # several format arguments, a valid one first (bad is ['red', <invalid>])
+            return (lambda: f('a', *bad)), ('inplace' if mut else 'value'), extra
         return (lambda: f('a', bad)), ('inplace' if mut else 'value'), extra
     if name == 'w_add':
         v = {'int': 5, 'none': None, 'float': 1.5, 'bytes': b'x', 'list': ['a'], 'tuple': ('a',)}[op['v']]
